@@ -66,6 +66,15 @@ def main():
     except core.Timeout:
         print(f"[{a.pid}] timed out after {budget}s (no verdict)")
         rc = 2
+    except core.ImplementationHangs as e:
+        try:
+            ctx.fail("cpp-runtime-does-not-terminate", e.what, e.case)
+            rc = core.finish(ctx, core.lean_audit(ctx.pid), ["check aborted: a binary built from the implementation's runtime did not terminate"],
+                             "aborted run: the histories handed to the runtime when it hung", ["the remaining streams of this check did not run"])
+        except Exception:
+            traceback.print_exc()
+            print(f"[{a.pid}] internal error in the checking machinery (no verdict)")
+            rc = 3
     except Exception as e:
         traceback.print_exc()
         rc = implementation_raised(ctx, mod, e)
